@@ -231,6 +231,11 @@ def workload(tier):
     small_n = 3 if tier == "quick" else 4
     small = [d for n in range(1, small_n + 1) for d in U.trees(n)]
     yield "shaped-1", shaped, lambda: RX.paths(1, FIELDS_FULL, INDICES_FULL, CLASSES_FULL)
+    # tuples with 300 and 260 elements: three-digit indices on both sides of 256 (small integers are shared objects in
+    # CPython, larger ones are not - an index compared by identity works up to 256)
+    huge = [P(items=[L(), S()] * 150, child=P(more=[L()] * 260, items=[S()] * 3))]
+    yield "huge-1", huge, lambda: RX.paths(1, [None, "items", "more"], [None, 0, 10, 100, 255, 256, 257, 258, 299], [None, "XL", "XS"])
+    yield "huge-2", huge, lambda: RX.paths(2, ["items", "more"], [None, 257], [None, "XL"])
     yield "shaped-2", shaped, lambda: RX.paths(2, FIELDS_FULL, INDICES_FULL, CLASSES_FULL)
     yield "small-1", small, lambda: RX.paths(1, FIELDS_FULL, INDICES_FULL, CLASSES_FULL)
     yield "small-2", small, lambda: RX.paths(2, FIELDS_RED, INDICES_RED, CLASSES_RED)
